@@ -20,7 +20,7 @@ RULE = ('A: grid {relative,absolute} x loop sequences depth 0-3 over representat
 ASSUMPTIONS = ['loop ids used in generated paths cannot be read as segment ids or element indexes (the grammar itself is ambiguous there)',
                'values written by set() contain no delimiter characters; refdes without an element index are not used for set()',
                'map element ids with a zero-padded component index (CLM05-01) are only required to re-parse to an equal path, not to print identically']
-REQUIRED_COUNTERS = ['A:paths', 'A:expected-reject', 'A:map-node-paths', 'B:histories', 'B:sets', 'B:gets-compared', 'B:foreign-refused']
+REQUIRED_COUNTERS = ['A:paths', 'A:expected-reject', 'A:map-node-paths', 'B:histories', 'B:sets', 'B:gets-compared', 'B:foreign-refused', 'B:foreign-after-accepted']
 MIN_CASES = {'quick': 20000, 'thorough': 500000}
 
 LOOPS = ['2000A', 'ISA_LOOP', '2300', 'HEADER', '1000B', '2010AA', '2400', 'GS_LOOP']
@@ -228,10 +228,13 @@ class Model(object):
 VALS = ['A', 'XYZ', '12', '0', ' ', 'a b', '', 'Q9', '-1.5', 'LONGERVALUE123', "O'NEIL", '&<>"']
 
 
+SEG_IDS = ['NM1', 'CLM', 'N3', 'HL', 'ISA', 'SV1', 'B2', 'REF']
+
+
 def rand_history(ctx, rng, hid):
     import pyx12.segment
     from pyx12.errors import EngineError
-    seg_id = rng.choice(['NM1', 'CLM', 'N3', 'HL', 'ISA', 'SV1', 'B2', 'REF'])
+    seg_id = rng.choice(SEG_IDS)
     terms = rng.choice([('~', '*', ':'), ('!', '|', '>'), ('\n', '^', '\\'), ('\x1c', '\x1d', '\x1f')])
     seg_t, ele_t, sub_t = terms
     vals = [v for v in VALS if not any(t in v for t in terms)]
@@ -258,7 +261,8 @@ def rand_history(ctx, rng, hid):
         elif style == 'qual':
             ref = seg_id + '[ZZ]' + ref
         elif style == 'foreign':
-            other = 'ZZ9' if seg_id != 'ZZ9' else 'AA1'
+            # another real segment id: the same designator string is legitimately accepted on that segment in other histories
+            other = rng.choice([x for x in SEG_IDS + ['ZZ9'] if x != seg_id])
             ref = other + ref
         ops.append((ref, v))
         before = [list(x) for x in model.els]
@@ -306,6 +310,32 @@ def rand_history(ctx, rng, hid):
                              'a position differs from the list-of-lists model', {'segment': text, 'terms': terms, 'ops': ops},
                              {'refdes': r, 'got': got, 'expected': exp})
                     return padded
+    # the designators this segment accepted, carrying its id, on a segment with another id: reads and writes both refused, nothing changed
+    used = [r for (r, v) in ops if r.startswith(seg_id)]
+    if used:
+        oid = rng.choice([x for x in SEG_IDS if x != seg_id and x != 'ISA'])
+        otext = oid + ele_t + 'P' + ele_t + 'Q' + sub_t + 'R' + ele_t + 'S'
+        oseg = pyx12.segment.Segment(otext, seg_t, ele_t, sub_t)
+        for r in used[:4]:
+            for what in ('get_value', 'set'):
+                ctx.count('B:foreign-after-accepted')
+                try:
+                    if what == 'get_value':
+                        oseg.get_value(r)
+                    else:
+                        oseg.set(r, 'W')
+                except EngineError:
+                    pass
+                except Exception as ex:
+                    ctx.viol('segment:foreign-%s-raises-%s' % (what, type(ex).__name__), 'a designator naming another segment raised something other than EngineError',
+                             {'segment': otext, 'refdes': r, 'first_segment': text, 'ops': ops}, {'exc': repr(ex)})
+                    return padded
+                else:
+                    ctx.viol('segment:foreign-designator-accepted:%s:after-own-segment-accepted-it' % what, 'a designator naming another segment was not refused', {'segment': otext, 'refdes': r, 'first_segment': text, 'ops': ops})
+                    return padded
+            if oseg.format(seg_t, ele_t, sub_t) != otext + seg_t:
+                ctx.viol('segment:foreign-designator-changed-segment', 'a refused designator changed the segment', {'segment': otext, 'refdes': r}, {'now': oseg.format(seg_t, ele_t, sub_t)})
+                return padded
     return padded
 
 
